@@ -144,7 +144,12 @@ def identify_object(
     from urllib.parse import urlparse
 
     if obj_type == "auto":
-        if obj == "-" or os.path.isfile(obj):
+        if (
+            obj == "-"
+            or os.path.isfile(obj)
+            or (not follow_symlinks and os.path.islink(obj))
+        ):
+            # a symbolic link that is not followed is a content (its link text)
             obj_type = "content"
         elif os.path.isdir(obj):
             obj_type = "directory"
